@@ -111,8 +111,18 @@ storage_set(struct Storage* self, const struct StorageProperties* settings)
     CHECK(self);
     CHECK(settings);
 
-    self->state = self->set(self, settings);
-    EXPECT(DeviceState_Armed == self->state,
+    {
+        // Like camera_set(): applying settings to a running device does not
+        // stop it, so it does not leave the Running state either.
+        const enum DeviceState previous = self->state;
+        const enum DeviceState next = self->set(self, settings);
+        self->state = (previous == DeviceState_Running &&
+                       next == DeviceState_Armed)
+                        ? DeviceState_Running
+                        : next;
+    }
+    EXPECT(DeviceState_Armed == self->state ||
+             DeviceState_Running == self->state,
            "Expected Armed. Got %s.",
            device_state_as_string(self->state));
 
